@@ -166,6 +166,16 @@ func (f *Func) redefineInputs(opts ...Arg) (reflect.Type, error) {
 	inputsProvided := map[interface{}]struct{}{}
 	for _, v := range vertexI {
 		inputsProvided[graph.VertexID(v)] = struct{}{}
+
+		// A provided typed value is tracked as a typed output in the graph
+		// but it equally satisfies the typed argument with the same type
+		// and subtype, so that argument is provided, too.
+		if tv, ok := v.(*typedOutputVertex); ok {
+			inputsProvided[graph.VertexID(&typedArgVertex{
+				Type:    tv.Type,
+				Subtype: tv.Subtype,
+			})] = struct{}{}
+		}
 	}
 
 	// Build our required value
